@@ -1126,7 +1126,12 @@ stream_encoder_mt_init(lzma_next_coder *next, const lzma_allocator *allocator,
 
 	// Allocate the thread-specific base structures.
 	assert(options->threads > 0);
-	if (coder->threads_max != options->threads) {
+	if (coder->threads_max != options->threads
+			|| coder->block_size != block_size) {
+		// The number of threads changes, or the input buffers of
+		// the existing threads were allocated for another block size
+		// (a bigger block size would overflow them): start over.
+		// With a new coder, threads_max is zero here.
 		threads_end(coder, allocator);
 
 		coder->threads = NULL;
